@@ -312,6 +312,7 @@ fn drive_worker<E: Engine>(eng: &E, ctx: &Ctx, w: usize, cases: u64, stop: &Atom
     WORKER_STATS.with(|s| *s.borrow_mut() = Some(RunStats::new(eng.name(), &eng.rule())));
     // signature of the first failure: shrinking must keep *this* one failing
     let first_fail: RefCell<Option<String>> = RefCell::new(None);
+    let first_fail_v: RefCell<Option<Violation>> = RefCell::new(None);
     let property = ctx.property.clone();
     let res = runner.run(&strat, |tapes| {
         if first_fail.borrow().is_none() && stop.load(Ordering::Relaxed) {
@@ -358,6 +359,7 @@ fn drive_worker<E: Engine>(eng: &E, ctx: &Ctx, w: usize, cases: u64, stop: &Atom
         });
         if let Some(v) = v {
             *first_fail.borrow_mut() = Some(v.signature.clone());
+            *first_fail_v.borrow_mut() = Some(v.clone());
             stop.store(true, Ordering::Relaxed);
             return Err(TestCaseError::fail(v.signature));
         }
@@ -376,7 +378,15 @@ fn drive_worker<E: Engine>(eng: &E, ctx: &Ctx, w: usize, cases: u64, stop: &Atom
                 .find(|v| v.property == property && v.signature == sig)
                 .or_else(|| out.violations.iter().find(|v| v.property == property))
                 .cloned()
-                .unwrap_or_else(|| Violation::new(&property, "unstable", sig.clone(), "failure did not reproduce on the shrunk case (nondeterminism in harness?)"));
+                .unwrap_or_else(|| match (eng.shrink_iters(), first_fail_v.borrow().clone()) {
+                    // an engine that does not shrink runs real threads: the schedule that failed cannot be replayed,
+                    // what was observed is reported as observed
+                    (0, Some(mut v)) => {
+                        v.detail = format!("{} (observed once; real-thread schedule, not reproducible at will)", v.detail);
+                        v
+                    }
+                    _ => Violation::new(&property, "unstable", sig.clone(), "failure did not reproduce on the shrunk case (nondeterminism in harness?)"),
+                });
             let path = write_replay(ctx, eng.name(), &case, &v);
             st.failure = Some((v, path));
         }
